@@ -282,7 +282,33 @@ func c15(c *core.Ctx, r *core.Report) {
 				if hc, isCall := st.Val.(*ssa.Call); isCall && e.Frame.Parent == nil {
 					// `s.F = orDefault(s.F, defaults.G, fallback)`: a coalescing helper preferring the stage's own value, then
 					// the default, then a fresh value, is the inheritance block in one expression
-					if cs := coalesceOf(an.Callee(hc)); cs != nil {
+					cs := coalesceOf(an.Callee(hc))
+					if cs == nil && an.Callee(hc) != nil && core.InModule(an.Callee(hc)) {
+						// a helper that is handed the stage's own value and a default but is not a plain nil-coalescing (it looks
+						// at the values, has effects, or loops): what it returns for a value the stage did set is not decided
+						ownSeen, defSeen := false, false
+						var cand []ssa.Value
+						for _, a := range hc.Call.Args {
+							cand = append(cand, a)
+							cand = append(cand, varargElems(a)...)
+						}
+						for _, a := range cand {
+							au, isU := a.(*ssa.UnOp)
+							if !isU || !ptrField(au) {
+								continue
+							}
+							if an.SameField(an.FieldOfAddr(au.X), dst) && an.Strip(au.X.(*ssa.FieldAddr).X) == an.Strip(st.Addr.(*ssa.FieldAddr).X) {
+								ownSeen = true
+							} else {
+								defSeen = true
+							}
+						}
+						if ownSeen && defSeen {
+							r.Violation(core.FuncName(fn)+"#"+dst.Name()+"←"+core.FuncName(an.Callee(hc))+"#only-when-unset", an.Pos(c, in), "%s is chosen between the stage's own value and a default by %s, which is not a plain `own if set, else default, else fallback`: a value the stage sets (for instance an explicit 0) can be replaced by the default", dst.Name(), core.FuncName(an.Callee(hc)))
+							return
+						}
+					}
+					if cs != nil {
 						ownIdx, defIdx := -1, -1
 						for i, a := range hc.Call.Args {
 							au, isU := a.(*ssa.UnOp)
